@@ -1,6 +1,6 @@
 SPECIFICATION Spec
 CONSTANT Alnum = {"a", "b", "é", "Z", "9"}
-CONSTANT Space = {" "}
+CONSTANT Space = {" ", " "}
 CONSTANT Punct = {"+", "😀", ";", ".", "✓"}
 INVARIANT Inv
 INVARIANT Done
